@@ -178,10 +178,6 @@ func (c *Ctx) ImportRules(prop string) {
 	rule2 := "C10.O2 no-silent-drop"
 	rule3 := "C10.O3 monotone-merge"
 	outMap := impCall.Common().Args[len(impCall.Common().Args)-1]
-	if _, ok := outMap.(*ssa.MakeMap); !ok {
-		c.R.Unknown(rule2, Fn(F), c.Pos(impCall), "the map handed to the rules-level import is not a fresh map")
-		return
-	}
 	// existing protection: result of ExportSlashingProtection in F
 	var existing ssa.Value
 	for _, ci := range Calls(F, func(ci ssa.CallInstruction) bool {
@@ -192,6 +188,60 @@ func (c *Ctx) ImportRules(prop string) {
 				existing = ex
 			}
 		}
+	}
+	// the merge may live in a package helper merge(entries, existing) (map, error): the import is then reached only past
+	// its nil-error edge, and the per-key loop is analysed in the helper (success of the helper takes the import's place)
+	successTargets := []ssa.Instruction{impCall.(ssa.Instruction)}
+	if ex, ok := outMap.(*ssa.Extract); ok && ex.Index == 0 {
+		if mcall, ok := ex.Tuple.(*ssa.Call); ok && !mcall.Call.IsInvoke() {
+			if M := mcall.Call.StaticCallee(); M != nil && prog.InModule(M) && M.Blocks != nil && errResultIndex(M) >= 0 {
+				errs := map[ssa.Value]bool{}
+				for _, e := range errValuesOfCall(mcall) {
+					errs[e] = true
+				}
+				target := impCall.(ssa.Instruction)
+				if x, path := an.Cut(an.CutQuery{From: an.After(mcall), Target: func(i ssa.Instruction) bool { return i == target },
+					AcceptEdge: func(b *ssa.BasicBlock, i int, a *an.Atom) bool { return errNilAtom(a, errs) }}); x != nil {
+					c.R.Fail(rule2, Fn(F)+":order", c.Pos(impCall), "the rules-level import can run although merging the file's entries failed", "import only past [merge err == nil]", an.PathString(c.Pos, path))
+					return
+				}
+				var mm ssa.Value
+				var succ []ssa.Instruction
+				okM := true
+				for _, ret := range an.Returns(M) {
+					if !isNilConst(unwrapErr(an.Result(ret, errResultIndex(M)))) {
+						continue
+					}
+					r := an.Result(ret, 0)
+					if mm != nil && r != mm {
+						okM = false
+					}
+					mm = r
+					succ = append(succ, ret)
+				}
+				var mexisting ssa.Value
+				for k, a := range mcall.Call.Args {
+					if a == existing && k < len(M.Params) {
+						mexisting = M.Params[k]
+					}
+				}
+				if okM && mm != nil {
+					F, outMap, existing, successTargets = M, mm, mexisting, succ
+				}
+			}
+		}
+	}
+	if _, ok := outMap.(*ssa.MakeMap); !ok {
+		c.R.Unknown(rule2, Fn(F), c.Pos(impCall), "the map handed to the rules-level import is not a fresh map")
+		return
+	}
+	isSuccessTarget := func(i ssa.Instruction) bool {
+		for _, t := range successTargets {
+			if t == i {
+				return true
+			}
+		}
+		return false
 	}
 	var upd *ssa.MapUpdate
 	nupd := 0
@@ -225,7 +275,7 @@ func (c *Ctx) ImportRules(prop string) {
 		_, path := an.Cut(an.CutQuery{From: an.Point{Block: loop.BodyFirst, Idx: 0}, Target: func(i ssa.Instruction) bool { return i == hdr.Instrs[0] },
 			AcceptInstr: func(i ssa.Instruction) bool { return i == ssa.Instruction(upd) }})
 		c.R.Fail(rule2, Fn(F), c.Pos(upd), "an entry of the file can be passed over without its data reaching the outgoing map while the import still reports success", "every entry is handed on, or the import fails", an.PathString(c.Pos, path))
-	} else if len(loop.BreakEdges()) > 0 && breaksToSuccess(loop, impCall) {
+	} else if len(loop.BreakEdges()) > 0 && breaksToAny(loop, successTargets) {
 		c.R.Fail(rule2, Fn(F), c.Pos(upd), "the loop over the file's entries can be left early and the import still runs", "all entries processed", nil)
 	} else {
 		c.R.OK(rule2, Fn(F), c.Pos(upd), "every iteration over the file's entries passes out[key] = record (or leaves with an error)")
@@ -233,8 +283,7 @@ func (c *Ctx) ImportRules(prop string) {
 	// import call only after the loop
 	{
 		hdr, exitB := loop.Header, loop.Exit
-		target := impCall.(ssa.Instruction)
-		if x, path := an.Cut(an.CutQuery{From: an.Entry(F), Target: func(i ssa.Instruction) bool { return i == target },
+		if x, path := an.Cut(an.CutQuery{From: an.Entry(F), Target: isSuccessTarget,
 			AcceptEdge: func(b *ssa.BasicBlock, i int, a *an.Atom) bool { return b == hdr && b.Succs[i] == exitB }}); x != nil {
 			c.R.Fail(rule2, Fn(F)+":order", c.Pos(impCall), "the rules-level import can run before all entries were merged", "import after the loop", an.PathString(c.Pos, path))
 		}
@@ -520,6 +569,17 @@ func (c *Ctx) validatedNumber(v ssa.Value, fn *ssa.Function, at ssa.Instruction,
 		return "", nil
 	}
 	return "is the result of " + Fn(callee) + ", not a validated parse", nil
+}
+
+func breaksToAny(l *Loop, targets []ssa.Instruction) bool {
+	for _, e := range l.BreakEdges() {
+		for _, t := range targets {
+			if an.Reachable(an.Point{Block: e[1], Idx: 0}, t) {
+				return true
+			}
+		}
+	}
+	return false
 }
 
 func breaksToSuccess(l *Loop, imp ssa.CallInstruction) bool {
